@@ -130,10 +130,14 @@ class C20(common.Prop):
         k = v["k"]
         if k in "MP":
             t = torch.tensor(list(v["data"]), dtype=torch.int64).to(self.dts[v["dt"]]).reshape(list(v["shape"]))
+            # memory layout of what the caller hands over (a function of the example only): as built, permuted storage (dense but
+            # not contiguous - what points_perspective() / get_points() return), a strided view of a longer tensor
+            lay = len(v["data"]) + sum(v["shape"]) + (v["data"][0] if v["data"] else 0)
+            t = common.vary_torch(t, lay)
             if k == "P":
                 return t
             m = torch.tensor(list(v["mask"]), dtype=torch.int64).to(torch.bool).reshape(list(v["shape"]))
-            return self.MaskedTensor(tensor=t, mask=m)
+            return self.MaskedTensor(tensor=t, mask=common.vary_torch(m, lay // 3))
         if k == "I":
             return {"int": int, "np.int32": np.int32, "bool": bool}[v["py"]](v["v"])
         if k == "S":
